@@ -1114,7 +1114,7 @@ def rule_single_rounding_offset(ctx):
                    "int(round(ppq * (...))) is itself free of truncation (no //, int(), floor, round in its definitions)")
     f = ctx.prog.func("partitura.io.exportmidi:save_score_midi", rule)
     conv = [n for n in ast.walk(f.node) if isinstance(n, ast.FunctionDef) and n is not f.node and
-            any(isinstance(c, ast.Call) and norm(c.func) in ("np.round", "round") for c in ast.walk(n))]
+            any(isinstance(c, ast.Call) and norm(c.func) in ("np.round", "round", "np.rint", "np.around", "numpy.round", "int") for c in ast.walk(n))]
     ctx.require(len(conv) >= 1, rule, f.qname, "nested tick conversion not found")
     defs = local_defs(f)
     n = 0
